@@ -48,7 +48,7 @@ Section RombergCubic.
   Proof.
     rewrite (trapezoid_cubic a0 a1 a2 a3 f Hf a b).
     - rewrite RN_pow2. unfold cellv. cbn [Nat.eqb]. replace (i + 1 - 1)%nat with i by lia.
-      f_equal. unfold I, C. fold G g'. field.
+      f_equal. unfold I, C. fold G g'. field. apply pow_nonzero; lra.
     - change 1%N with (2 ^ N.of_nat 0)%N. apply N.pow_le_mono_r; lia.
   Qed.
 
@@ -105,7 +105,7 @@ Section RombergCubic.
     cbn [romberg_loop] in Hr.
     destruct (checked_pow2 (S iter0)) as [segs|] eqn:Ep; [|discriminate Hr].
     unfold checked_pow2 in Ep. destruct (S iter0 <? 64)%nat; [|discriminate Ep].
-    injection Ep as <-.
+    injection Ep as <-. change (N.pos (2 ^ Pos.of_succ_nat iter0)) with (2 ^ N.of_nat (S iter0))%N in Hr.
     rewrite trapezoid_pow2 in Hr. cbn [bind] in Hr.
     destruct (tset tbl (S iter0 + 1) 1 (cellv (S iter0 + 1) 1)) as [tbl1| |] eqn:Es;
       cbn [bind] in Hr; try discriminate Hr.
@@ -143,10 +143,91 @@ Section RombergCubic.
     change 1%N with (2 ^ N.of_nat 0)%N in Hr. rewrite trapezoid_pow2 in Hr. cbn [bind] in Hr.
     match type of Hr with context [tset ?t0 1 1 ?v0] =>
       destruct (tset t0 1 1 v0) as [tbl| |] eqn:Es end; cbn [bind] in Hr; try discriminate Hr.
-    apply (romberg_loop_exact cap tol _ tbl 0%nat v); [|exact Hr].
+    apply (romberg_loop_exact cap tol (table_size cap) tbl 0%nat v); [|exact Hr].
     intros j k Hj Hk Hreg.
     assert (j = 1%nat /\ k = 1%nat) as [-> ->] by lia.
     rewrite (tget_tset _ _ _ _ _ Es). cbn [Nat.eqb andb]. reflexivity.
+  Qed.
+
+  (* ---- convergence: with exact arithmetic a cubic is integrated after at most
+     two iterations, so a value IS returned whenever cap >= 3 and tol >= 0
+     (non-vacuity of [romberg_exact]) ------------------------------------------ *)
+  Lemma known_weaken (tbl : @table R) d : known tbl d (d + 2) -> known tbl (S d) 1.
+  Proof. intros H j k Hj Hk Hreg. apply H; [exact Hj|exact Hk|]. lia. Qed.
+
+  Lemma romberg_body_step n (tbl : @table R) iter0 :
+    dims tbl n -> known tbl (S iter0) 1 -> (S iter0 + 1 < n)%nat ->
+    exists tbl1 tbl2,
+      tset tbl (S iter0 + 1) 1 (cellv (S iter0 + 1) 1) = Ok tbl1 /\
+      richardson (S iter0) 2 (S iter0) tbl1 = Ok tbl2 /\
+      dims tbl2 n /\ known tbl2 (S (S iter0)) 1.
+  Proof.
+    intros Hd Hk Hn.
+    destruct (tset_ok tbl n (S iter0 + 1) 1 (cellv (S iter0 + 1) 1) Hd) as (tbl1 & Es & Hd1); [lia|lia|].
+    assert (Hk1 : known tbl1 (S iter0) 2).
+    { intros j k Hj Hkk Hreg. rewrite (tget_tset _ _ _ _ _ Es).
+      destruct ((j =? S iter0 + 1)%nat && (k =? 1)%nat) eqn:Esame.
+      - apply andb_true_iff in Esame. destruct Esame as [Ej Ekk].
+        apply Nat.eqb_eq in Ej. apply Nat.eqb_eq in Ekk. subst j k. reflexivity.
+      - apply Hk; [exact Hj|exact Hkk|].
+        destruct Hreg as [Hreg|[Hs Hlt]]; [left; exact Hreg|].
+        exfalso. assert (k = 1%nat) by lia. subst k.
+        assert (j = (S iter0 + 1)%nat) by lia. subst j.
+        rewrite !Nat.eqb_refl in Esame. discriminate Esame. }
+    destruct (richardson_ok n (S iter0) (S iter0) 2 tbl1 Hd1) as (tbl2 & Er & Hd2); [lia|lia|lia|].
+    exists tbl1, tbl2. split; [exact Es|]. split; [exact Er|]. split; [exact Hd2|].
+    apply known_weaken.
+    apply (richardson_known (S iter0) ltac:(lia) (S iter0) 2%nat tbl1 tbl2 Hk1); [lia|lia|exact Er].
+  Qed.
+
+  Lemma approx_err_zero : (nmul (nabs (ndiv (nabs (nsub I I)) I)) (nofZ 100) : R) = 0.
+  Proof.
+    cbn [nmul nabs ndiv nsub nofZ RNum].
+    replace (I - I) with 0 by ring. rewrite Rabs_R0. unfold Rdiv. rewrite Rmult_0_l, Rabs_R0. ring.
+  Qed.
+
+  Lemma romberg_loop_second n cap tol fuel (tbl : @table R) :
+    dims tbl n -> (3 < n)%nat -> known tbl 2 1 -> (3 <= cap)%N -> 0 <= tol ->
+    romberg_loop (S fuel) f a b cap tol tbl 1 = Ok I.
+  Proof.
+    intros Hd Hn Hk Hcap Htol.
+    cbn [romberg_loop]. change (checked_pow2 2) with (Some (2 ^ N.of_nat 2)%N). cbv iota beta.
+    rewrite trapezoid_pow2. cbn [bind].
+    destruct (romberg_body_step n tbl 1 Hd Hk ltac:(lia)) as (tbl1 & tbl2 & Es & Er & Hd2 & Hk2).
+    change (1 + 1 + 1)%nat with (2 + 1)%nat in Es. rewrite Es. cbn [bind]. rewrite Er. cbn [bind].
+    rewrite (Hk2 1%nat (2 + 1)%nat) by lia. rewrite (Hk2 2%nat 2%nat) by lia. cbn [bind].
+    change (cellv 1 (2 + 1)) with I. change (cellv 2 2) with I.
+    rewrite approx_err_zero.
+    replace (cap <=? N.of_nat 2)%N with false by (symmetry; apply N.leb_gt; lia).
+    cbn [orb nleb RNum].
+    replace (Rleb 0 tol) with true by (symmetry; apply Rleb_true; exact Htol).
+    reflexivity.
+  Qed.
+
+  Lemma romberg_converges cap tol : (3 <= cap)%N -> 0 <= tol -> romberg f a b cap tol = Ok I.
+  Proof.
+    intros Hcap Htol. unfold romberg.
+    assert (Hts : (5 <= table_size cap)%nat) by (unfold table_size; lia).
+    set (n := table_size cap) in *.
+    change 1%N with (2 ^ N.of_nat 0)%N. rewrite trapezoid_pow2. cbn [bind].
+    destruct (tset_ok (repeat (repeat (n0 : R) n) n) n 1 1 (cellv (0 + 1) 1) (dims_repeat n0 n))
+      as (tbl & Es & Hd); [lia|lia|].
+    rewrite Es. cbn [bind].
+    assert (Hk : known tbl 1 1).
+    { intros j k Hj Hkk Hreg. assert (j = 1%nat /\ k = 1%nat) as [-> ->] by lia.
+      rewrite (tget_tset _ _ _ _ _ Es). cbn [Nat.eqb andb]. reflexivity. }
+    destruct n as [|fuel]; [lia|].
+    cbn [romberg_loop]. change (checked_pow2 1) with (Some (2 ^ N.of_nat 1)%N). cbv iota beta.
+    rewrite trapezoid_pow2. cbn [bind].
+    destruct (romberg_body_step (S fuel) tbl 0 Hd Hk ltac:(lia)) as (tbl1 & tbl2 & Es1 & Er & Hd2 & Hk2).
+    rewrite Es1. cbn [bind]. rewrite Er. cbn [bind].
+    rewrite (Hk2 1%nat (1 + 1)%nat) by lia. rewrite (Hk2 2%nat 1%nat) by lia. cbn [bind].
+    replace (cap <=? N.of_nat 1)%N with false by (symmetry; apply N.leb_gt; lia).
+    cbn [orb].
+    match goal with |- context [nleb ?u ?w] => destruct (nleb u w) end.
+    - reflexivity.
+    - destruct fuel as [|fuel']; [lia|].
+      apply (romberg_loop_second (S (S fuel')) cap tol fuel' tbl2 Hd2); [lia|exact Hk2|exact Hcap|exact Htol].
   Qed.
 End RombergCubic.
 
@@ -170,4 +251,14 @@ Proof.
   rewrite !eval_simple_integral_cubic by exact Hp.
   eapply romberg_exact; [|exact Hr].
   intro x. unfold s_eval_univariate. rewrite eval_simple_cubic by exact Hp. reflexivity.
+Qed.
+
+(* with exact arithmetic the value is returned as soon as three iterations are allowed *)
+Lemma c05_romberg_converges_cubic : forall (f : R -> res R) (a0 a1 a2 a3 : R),
+  (forall x, f x = Ok (a0 + a1 * x + a2 * x ^ 2 + a3 * x ^ 3)) ->
+  forall (a b : R) (cap : N) (tol : R), (3 <= cap)%N -> 0 <= tol ->
+  romberg f a b cap tol = Ok (cubic_prim a0 a1 a2 a3 b - cubic_prim a0 a1 a2 a3 a).
+Proof.
+  intros f a0 a1 a2 a3 Hf a b cap tol Hc Ht.
+  apply (romberg_converges a0 a1 a2 a3 f Hf a b cap tol Hc Ht).
 Qed.
